@@ -398,7 +398,7 @@ func init() {
 	fw.Register(&fw.Check{
 		ID:          "C12",
 		Level:       "model_checking",
-		Rule:        "every characteristic constructor found in /repo plus 16 generic constructor × format × bounds configurations; every update sequence of length ≤2 (thorough: ≤3 once per behaviour class = (format, min, max, default type, permissions)) over ≈40 JSON-like values (numbers of every magnitude and sign, numeric / NaN / Inf strings, booleans, null, arrays, objects, the constructor's own min−1/min/max/max+1), each applied locally or from a connection, or supplied by an application read callback when the value is read locally (typed getter) or by a controller; plus, for every constructor with declared bounds, two live instances (one with narrowed bounds) updated alternately; after every update: no panic, stored value has the Go type of the format, is finite and within declared bounds, typed getter and JSON encoding succeed. states = executed sequences, distinct_nontrivial = distinct (format, stored Go type) classes",
+		Rule:        "every characteristic constructor found in /repo plus 16 generic constructor × format × bounds configurations; every update sequence of length ≤2 (thorough: ≤3 once per behaviour class = (format, min, max, default type, permissions)) over ≈40 JSON-like values (numbers of every magnitude and sign, numeric / NaN / Inf strings, booleans, null, arrays, objects, the constructor's own min−1/min/max/max+1), each applied locally or from a connection, or supplied by an application read callback when the value is read locally (typed getter) or by a controller; plus, for every constructor with declared bounds, two live instances (one with narrowed bounds) updated alternately; after every update: no panic, stored value has the Go type of the format, is finite and within declared bounds, typed getter and JSON encoding succeed. states = executed sequences, distinct_nontrivial = distinct (format, stored Go type) classes Plus, in a subprocess built with a scheduling point before EVERY statement of hc's packages (textual insertion through go build -overlay): every interleaving with at most 1 (thorough 2) preemptions of pairs of operations on disjoint objects — and, where the property is about served requests, of pairs of handlers on two verified connections of one accessory touching different characteristics — each side must observe exactly what it observes when the two run one after the other (module-level mutable state is what makes them differ).",
 		Run:         c12Run,
 		Replay:      c12Replay,
 		Budget:      func(string) time.Duration { return 25 * time.Minute },
